@@ -13,6 +13,8 @@ Key(c) == CASE c = "A" -> "k1" [] c = "B" -> "k2" [] c = "At" -> "k2" [] c = "A3
 Align8(n) == ((n + 7) \div 8) * 8
 
 Init == /\ img \in Images /\ signers = img.presigned /\ fresh = TRUE /\ last = [op |-> "init"]
+(* (a Sign may overlap with a complete signing of ANOTHER image object - the harness lets that happen while every third Sign waits *)
+(* in its signer; the step is about this object only)                                                                          *)
 Sign(c) == /\ signers' = Append(signers, c) /\ fresh' = FALSE
            /\ last' = [op |-> "sign", c |-> c, res |-> "ok"] /\ UNCHANGED img
 (* the signer (token, HSM) fails: an error, and the image object is as before - a later Sign / Verify / serialisation is unaffected *)
